@@ -416,3 +416,48 @@ def source_obligations(prop, mod, work):
 def load_prop(prop):
     sys.path.insert(0, HARNESS)
     return importlib.import_module('props.' + prop.lower())
+
+
+ISOLATION_RUNNER = r"""
+import importlib, json, logging, sys, types
+sys.path.insert(0, %(harness)r)
+import rt  # noqa
+mod = importlib.import_module('props.' + %(prop)r)
+import collections, io
+CONTAINERS = (dict, list, set, collections.deque, bytearray, io.BytesIO)
+
+
+def stateful(v):
+    # containers, and objects of classes the library itself defines (an Ema, a clock, a pool, a sink ...); stateless
+    # helpers of other libraries (a Thrift protocol factory, a struct.Struct) may be shared
+    return isinstance(v, CONTAINERS) or (type(v).__module__ or '').startswith('scales.')
+out = []
+for name, make in mod.ISOLATION:
+    a, b = make(), make()
+    for n in sorted(set(dir(a)) | set(dir(b))):
+        if n.startswith('__') or n == '_abc_impl':
+            continue
+        try:
+            va, vb = getattr(a, n), getattr(b, n)
+        except Exception:
+            continue
+        if va is vb and stateful(va) and not isinstance(va, type) and n not in getattr(mod, 'ISOLATION_SHARED_OK', ()):
+            out.append('%%s: two instances share the %%s object held in attribute %%s' %% (name, type(va).__name__, n))
+print('ISOLATION ' + json.dumps(out))
+"""
+
+
+def isolation_obligations(prop, mod, work):
+    """`mod.ISOLATION` = [(name, factory)]: two objects made by the factory must not hold one and the same mutable object in
+    any attribute (state kept on the class or the module instead of the instance couples every client in the
+    process; no single-instance script can see it).  Returns a list of problems."""
+    if not getattr(mod, 'ISOLATION', None):
+        return []
+    script = os.path.join(work.dir, 'isolation.py')
+    open(script, 'w').write(ISOLATION_RUNNER % {'harness': HARNESS, 'prop': prop.lower()})
+    p = subprocess.run([PY, script], cwd=work.dir, env=worker_env(), stdout=subprocess.PIPE, stderr=subprocess.PIPE,
+                       text=True, timeout=120)
+    for line in p.stdout.splitlines():
+        if line.startswith('ISOLATION '):
+            return json.loads(line[len('ISOLATION '):])
+    return ['isolation probe failed: ' + (p.stderr or p.stdout)[-600:]]
